@@ -164,6 +164,8 @@ type docOpts struct {
 	noDupDates bool
 	ascii      bool
 	longQ      bool // open ranges with long placeholders (closing them shrinks the file)
+	noFuture   bool // no record after `today` (today is the last representable day)
+	noEarlier  bool // no record before `today` (today is near the first representable day)
 }
 
 func genEntry(r *Rng, st recStyle, allowOpen bool) GEntry {
@@ -279,6 +281,20 @@ func genDoc(r *Rng, o docOpts) GDoc {
 		for i := range offsets {
 			offsets[i] += shift
 		}
+	}
+	for i := range offsets {
+		if o.noFuture && offsets[i] > 0 {
+			offsets[i] = -offsets[i]
+		}
+		if o.noEarlier && offsets[i] < 0 {
+			offsets[i] = -offsets[i]
+		}
+	}
+	if o.noFuture && n > 0 && r.Chance(2, 3) {
+		offsets[n-1] = 0 // the last record sits on the edge itself
+	}
+	if o.noEarlier && n > 0 && r.Chance(2, 3) {
+		offsets[0] = 0
 	}
 	sorted := true
 	if o.sorted == 0 && r.Chance(1, 5) || o.sorted == -1 {
